@@ -2872,11 +2872,9 @@ func parseFixedSize(token Token) pr.GridDims {
 func parseLineNames(arg Token) []string {
 	if arg, ok := arg.(pa.SquareBracketsBlock); ok {
 		names := []string{}
-		for _, token := range arg.Arguments {
+		for _, token := range pa.RemoveWhitespace(arg.Arguments) {
 			if ident, ok := token.(pa.Ident); ok {
 				names = append(names, ident.Value)
-			} else if _, ok := token.(pa.Whitespace); ok {
-				continue
 			} else {
 				return nil
 			}
